@@ -45,7 +45,7 @@ def main():
             sh('rm -rf %s/_build' % wt)
             # demo: rewrite the agent's worktree path to ours
             cmd = meta.get('demo_build_run', '')
-            orig = re.search(r'/tmp/wt2?/C\d+', cmd + open(os.path.join(d, 'patch.diff')).read() + ''.join(open(os.path.join(d, f), errors='replace').read() for f in os.listdir(d) if f.startswith('demo')))
+            orig = re.search(r'/tmp/wt\d?/C\d+', cmd + open(os.path.join(d, 'patch.diff')).read() + ''.join(open(os.path.join(d, f), errors='replace').read() for f in os.listdir(d) if f.startswith('demo')))
             origp = orig.group(0) if orig else None
             demodir = wt + '/_demo'
             os.makedirs(demodir, exist_ok=True)
@@ -54,11 +54,11 @@ def main():
                     t = open(os.path.join(d, f), errors='replace').read()
                     if origp:
                         t = t.replace(origp, wt)
-                    t = re.sub(r'/tmp/seed(?:out|2)/C\d+', demodir, t).replace('/verif/seeded/' + os.path.basename(d), demodir)
+                    t = re.sub(r'/tmp/seed(?:out|\d)/C\d+', demodir, t).replace('/verif/seeded/' + os.path.basename(d), demodir)
                     open(os.path.join(demodir, f), 'w').write(t)
             if origp:
                 cmd = cmd.replace(origp, wt)
-            cmd = re.sub(r'/tmp/seed(?:out|2)/C\d+', demodir, cmd).replace('/verif/seeded/' + os.path.basename(d), demodir)
+            cmd = re.sub(r'/tmp/seed(?:out|\d)/C\d+', demodir, cmd).replace('/verif/seeded/' + os.path.basename(d), demodir)
             r = sh('cd %s && %s' % (demodir, cmd), timeout=600)
             res['demo_fails_with_patch'] = r.returncode != 0
             print('demo with patch: rc=%s %s' % (r.returncode, r.stdout.strip()[-200:].replace('\n', ' | ')))
